@@ -220,6 +220,21 @@ func runChecks(repo, prop, tier, outDir, knownPath, explain, goarch string, star
 		}
 		f.Close()
 	}
+	if kf := os.Getenv("LH_KEYS"); kf != "" {
+		// debug: the obligation keys evaluated on this tree with their worst status (for diffing two trees)
+		worst := map[string]string{}
+		for _, o := range res.Obls {
+			if w, ok := worst[o.Key]; !ok || (w == "discharged" && o.Status != "discharged") {
+				worst[o.Key] = o.Status
+			}
+		}
+		var ks []string
+		for k, st := range worst {
+			ks = append(ks, k+"\t"+st)
+		}
+		sort.Strings(ks)
+		os.WriteFile(kf, []byte(strings.Join(ks, "\n")+"\n"), 0644)
+	}
 	return report(a, res, prop, tier, outDir, knownPath, start)
 }
 
